@@ -321,7 +321,9 @@ def compute_attractor_candidates(
                     candidate_states = candidate_states_one
                     continue
 
-                if len(candidate_states_zero) < len(candidate_states_one):
+                # (`candidate_states_one` is truncated to the size of
+                # `candidate_states_zero`; on a tie it can be incomplete.)
+                if len(candidate_states_zero) <= len(candidate_states_one):
                     if sd.config["debug"]:
                         print(
                             f"[{node_id}] Chosen {var}=0 with better candidate count ({len(candidate_states_zero)}). {len(retained_set)}/{len(node_nfvs)} variables chosen."
